@@ -158,6 +158,16 @@ def comp_atoms(comp):
     return out
 
 
+def measured_atoms(comp):
+    """atoms whose total force the component reads: with oneSiteTotalForce (and for a two-point axis) the first group only"""
+    if "ids" in comp:
+        return list(comp["ids"])
+    gs = comp["groups"]
+    if comp.get("onesite") or (comp["kind"] in ("distanceZ", "distanceXY") and gs[2] is not None):
+        return list(gs[0].get("ids", []))
+    return comp_atoms(comp)
+
+
 # ------------------------------------------------------------------ configuration text
 def vtxt(v):
     return "(%r, %r, %r)" % (v[0], v[1], v[2])
@@ -527,8 +537,8 @@ def gen_case(r, idx, typ=None, kinds=None):
         case["lin"] = [a, b]
         steps = [{"pos": P[0], "ef": e} for e in (zero, F, G, H, zero)]
     elif typ == "LOC":
-        va = set(a for c in comps for a in comp_atoms(c))
-        foreign = [a for a in range(1, n + 1) if a not in va]
+        va = set(a for c in comps for a in measured_atoms(c))
+        foreign = [a for a in range(1, n + 1) if a not in va]      # incl. the unmeasured groups of one-site components
         F = field()
         steps = [{"pos": P[0], "ef": F}]
         for _ in range(3):
@@ -630,7 +640,8 @@ def oracle(case, isteps):
     if typ == "LOC":
         vals = tfs[first:first + 4]
         if any(v != vals[0] for v in vals):
-            out.append(("local:%s:%s" % (kd, mode), "forces added on atoms outside the variable's groups change the total force: %r" % vals))
+            out.append(("local:%s:%s%s" % (kd, mode, ":onesite" if any(c.get("onesite") for c in case["comps"]) else ""),
+                        "forces added on atoms outside the variable's (measured) groups change the total force: %r" % vals))
     if typ == "TIM" and len(tfs) >= 5:
         if case["same"]:
             if tfs[0] != tfs[2]:
@@ -842,6 +853,12 @@ def check(run):
                     for s in c["steps"][:-1]:
                         s["ef"] = z
                 first.append(c)
+    for kind in ("distance", "distanceZ", "distanceXY", "angle", "dihedral"):     # one-site locality for every group-based kind
+        for same in (0, 1):
+            c = None
+            while c is None or not c["comps"][0].get("onesite") or c["same"] != same:
+                c = gen_case(r, 0, "LOC", [kind])
+            first.append(c)
     n = 420 if quick else 12000
     cases = list(first)
     target = len(first) + n
